@@ -164,6 +164,15 @@ func scenarios(tier string) []Scn {
 	for _, v := range []string{"icmp4", "icmp6", "udp4", "udp6", "sack", "sackstrict", "syn", "synparis"} {
 		out = append(out, Scn{Kind: "proto", Items: []proto.Scn{early(v, 0)}, Bound: b, Name: v + "/replies-queued-before-their-probe"})
 	}
+	for _, v := range []string{"sack", "sackstrict"} {
+		// the target retransmits its SYN-ACK while the probes are going out (it passes the tuple filter): whatever the
+		// receiver does with it must not touch what the sender reads
+		for _, ms := range []int{5, 15, 25} {
+			sc := early(v, 0)
+			sc.SynAck = &simnet.SynAckSpec{Enabled: true, ISN: 0x1000, AckNum: 0x2000, SackPermitted: true, LateCopyMs: ms}
+			out = append(out, Scn{Kind: "proto", Items: []proto.Scn{sc}, Bound: b, Name: fmt.Sprintf("%s/synack-retransmitted-%dms-into-the-probe-phase", v, ms)})
+		}
+	}
 	for _, v := range []string{"icmp4", "icmp6", "udp4", "udp6", "sackstrict", "syn", "synparis"} {
 		a, c := early(v, 0), early(v, 1)
 		out = append(out, Scn{Kind: "proto", Items: []proto.Scn{a, c}, Bound: 1, Name: v + "+" + v + "/two-runs-at-once"})
